@@ -10,7 +10,7 @@ LOOP_STUBS = [
     "SendableChooser stub returns the default option; SmartDashboard 'Auto Selector' string absent",
 ]
 LOOP_ASSUME = [
-    "robot layouts are the enumerated programs R1 (2 components), R2 (3 components, inherited hooks), R3 (inherited robot class), R4 (a StateMachine component between plain ones)",
+    "robot layouts are the enumerated programs R1 (2 components), R2 (3 components, inherited hooks), R3 (inherited robot class), R4 (a StateMachine component between plain ones), R6 (components lacking some or all optional hooks declared first)",
     "callbacks only log (and raise when the fault plan says so)",
     "single-threaded: endCompetition from another thread is a flag flip at a refresh point",
 ]
@@ -89,12 +89,12 @@ class C06(LoopSpec):
 
     def jobs(self, tier):
         if tier == "quick":
-            return [mkjob("R1", 4, True), mkjob("R2", 4, True, sym_shutdown=True), mkjob("R3", 4, False), mkjob("R4", 4, True),
+            return [mkjob("R1", 4, True), mkjob("R2", 4, True, sym_shutdown=True), mkjob("R3", 4, False), mkjob("R4", 4, True), mkjob("R6", 3, True),
                     mkjob("R1", 3, True, with_feedbacks=True), mkjob("R3", 3, False, with_feedbacks=True),
                     mkjob("R2", 3, True, fms=True, faults=1, fault_patterns=["first", "always"],
                           fault_sites=["c1.on_disable", "c1.on_enable", "c2.on_disable", "c2.on_enable"])]
         return [mkjob("R1", 6, True), mkjob("R2", 5, True, sym_shutdown=True), mkjob("R3", 6, False),
-                mkjob("R2", 4, True, raw_words=True), mkjob("R1", 3, True, change_at_dispatch=True), mkjob("R4", 5, True),
+                mkjob("R2", 4, True, raw_words=True), mkjob("R1", 3, True, change_at_dispatch=True), mkjob("R4", 5, True), mkjob("R6", 4, True),
                 mkjob("R2", 4, True, fms=True, faults=2, fault_patterns=["first", "always"],
                       fault_sites=["c1.on_disable", "c1.on_enable", "c2.on_disable", "c2.on_enable", "c1.execute"])]
 
